@@ -19,6 +19,30 @@ AGG_KEYS = ["min/raise", "min/coerce", "max/raise", "max/coerce",
             "ratio/to_overall/raise", "ratio/to_overall/coerce"]
 # with a non-scalar column in the frame only the well-defined coerce variants are compared with the model
 NS_COMPARED = ("min/coerce", "max/coerce", "difference/between_groups/coerce", "ratio/between_groups/coerce")
+# accessor calls that LEAVE ARGUMENTS OUT (order of the second half of the driver op `aggc.eval`) -> the explicit call the
+# docstrings of MetricFrame.group_min / group_max / difference / ratio document them to be equal to
+DEF_KEYS = ["min/-", "max/-",
+            "difference/-/-", "difference/between_groups/-", "difference/to_overall/-", "difference/-/raise", "difference/-/coerce",
+            "ratio/-/-", "ratio/between_groups/-", "ratio/to_overall/-", "ratio/-/raise", "ratio/-/coerce"]
+
+
+def documented_default(key):
+    parts = key.split("/")
+    if parts[0] in ("min", "max"):
+        return f"{parts[0]}/raise"
+    return "/".join([parts[0], "between_groups" if parts[1] == "-" else parts[1], "coerce" if parts[2] == "-" else parts[2]])
+
+
+# errors='raise' is documented to raise on "invalid parsing": the aggregates that reduce by_group with errors='raise'
+RAISE_KEYS = ("min/raise", "max/raise", "difference/between_groups/raise", "ratio/between_groups/raise")
+# sha256 of lean/FairModel/Generated/PopulateSrc.lean as lifted from the pinned tree (rule: see c01.PINNED_FRAMESRC_SHA256)
+PINNED_POPULATESRC_SHA256 = "20c4fc960e2fa1936101981c8ceeafe5c27fc2ed510d745715c0dd0eee3abcb5"
+
+
+def populate_changed():
+    return c01mod._generated_changed("PopulateSrc.lean", PINNED_POPULATESRC_SHA256) or c01mod.framesrc_changed()
+
+
 WMEAN_TAGS = ("selrate", "accuracy", "meanpred", "meanerr")   # sample-weighted means of a per-row quantity
 TABLE_VALUES = ["0", "1/2", "1", "-1", "nan", "2", "-3", "3/4", "-1/2", "1/4", "5"]
 
@@ -152,7 +176,13 @@ class CHECK(Check):
                  "correspondence with MetricFrame.group_min/group_max/difference/ratio; the BODIES of apply_grouping/difference/"
                  "ratio are symbolically executed by lifters/aggregate_gen.py into Generated/AggregateGen.lean (compositions of "
                  "the pandas-level primitives of Model/AggregatePrim.lean) and proved equal to the model; multi-metric frames "
-                 "(Model/AggregateFrame.lean, row-major DataFrames) are proved column-wise equal to the single-metric model")
+                 "(Model/AggregateFrame.lean, row-major DataFrames) are proved column-wise equal to the single-metric model; "
+                 "the RESULT CACHE of MetricFrame (_populate_results / _group: which (method, errors) each slot is computed with, the "
+                 "no_control_levels flag) and the defaults / cache path of group_min, group_max, difference, ratio are symbolically "
+                 "executed by lifters/populate.py into Generated/PopulateSrc.lean, interpreted by Model/AggregateCache.lean together "
+                 "with the lifted _extract_result (driver op aggc.eval) and proved equal to the model (src_populate_eq_model, "
+                 "src_group_min/group_max/difference/ratio_eq_model, src_cache_explicit_calls, src_cache_default_calls, "
+                 "src_extract_documented)")
     level_text = ("Theorems (all tables, any number of strata/groups, NaN cells): group_min/max are attained lower/upper bounds "
                   "of the non-NaN groups; difference(between)=max-min; difference(to_overall)=max|v-o|; ratio(between)=min/max "
                   "(IEEE division); ratio(to_overall)=min ratio_sub_one(v/o) with ratio_sub_one r = min(r,1/r) for r>=0; "
@@ -188,6 +218,9 @@ class CHECK(Check):
             "1..4 groups per stratum, NaN cells, all-NaN strata, 27% with non-scalar cells in by_group and/or overall of one "
             "column): the whole frame goes through the driver op aggf.eval and all 12 aggregates are compared column by "
             "column, including which calls raise. "
+            "On every case the four accessors are ALSO called with errors= and/or method= left out (12 more calls) and must equal "
+            "the call with the documented default (C02.default_args); on frames whose non-scalar by_group cells have to be compared "
+            "errors='raise' must raise (C02.raise_raises_on_nonscalar). "
             "thorough: ALL tables over {0,1/2,1,-1,nan} with <= 4 groups x <= 2 strata and overall in {0,1/2,1,-1}")
     explanation = ("oracle = the documented formulas evaluated exactly (Fractions, IEEE rules for x/0) on the implementation's own "
                    "by_group/overall; tolerance 1e-12 * max(1,|exact|) (measured max deviation of the implementation from the exact value on the clean tree: "
@@ -201,7 +234,11 @@ class CHECK(Check):
                "column, alignment on the control levels, an exception in one column aborts the call; object-dtype behaviour "
                "(when a reduction over non-scalar cells raises) is an observed rule, compared only on frames where every "
                "non-scalar by_group cell shares its (stratum, column) with another non-NaN cell and every stratum has >= 2 rows",
-               "lifters/aggregate_gen.py: symbolic execution of the three method bodies into the primitives of Model/AggregatePrim.lean")
+               "lifters/aggregate_gen.py: symbolic execution of the three method bodies into the primitives of Model/AggregatePrim.lean",
+               "lifters/populate.py: symbolic execution of _populate_results / _group and of the four accessors; pinned (refused "
+               "otherwise), not modelled: every cache store sits in try/except Exception that stores the exception under the same "
+               "path, _none_to_nan (identity on the modelled values) wraps the difference / ratio results, the accessors re-raise a "
+               "stored exception and return anything else unchanged")
     assumptions = ("metric values are finite or NaN (no +-inf cells, no -0.0)", "sample weights are positive")
 
     def __init__(self):
@@ -416,6 +453,29 @@ class CHECK(Check):
                 for nm in names:
                     v = r if bare else r[nm]
                     out["metrics"][nm]["agg"][k] = [[[], mc.tok(v)]] if ncf == 0 else mc.series_table(v, ncf)
+        # the same accessors with `errors=` and / or `method=` left out (defaults of the public methods)
+        out["dtypes"] = {}
+        for nm in names:
+            out["metrics"][nm]["dflt"] = {}
+        for k in DEF_KEYS:
+            parts = k.split("/")
+            fn = getattr(mf, {"min": "group_min", "max": "group_max"}.get(parts[0], parts[0]))
+            kw = {}
+            if len(parts) == 3 and parts[1] != "-":
+                kw["method"] = parts[1]
+            if parts[-1] != "-":
+                kw["errors"] = parts[-1]
+            try:
+                r = fn(**kw)
+            except Exception as ex:  # noqa: BLE001
+                for nm in names:
+                    out["metrics"][nm]["dflt"][k] = ["exc", type(ex).__name__]
+                out["dtypes"][k] = "exc"
+                continue
+            out["dtypes"][k] = "DataFrame" if isinstance(r, pd.DataFrame) else "Series" if isinstance(r, pd.Series) else "scalar"
+            for nm in names:
+                v = r if bare else r[nm]
+                out["metrics"][nm]["dflt"][k] = [[[], mc.tok(v)]] if ncf == 0 else mc.series_table(v, ncf)
         return out
 
     def lines(self, case, o):
@@ -448,6 +508,9 @@ class CHECK(Check):
                 return ";".join(",".join(x_tok(x_of(m[which][i][1])) for m in ms) for i in range(n)) if n else "none"
             ls.append(f"aggf.eval {ncf} {len(names)} {fkeys(ms[0]['by_group'])} {frows('by_group')} "
                       f"{fkeys(ms[0]['overall'])} {frows('overall')}")
+        # the LIFTED result cache and accessors (Model/AggregateCache.lean over Generated/PopulateSrc.lean): same tables
+        for ln in ls[:len(names)]:
+            ls.append(f"aggc.eval {proto.b(case['bare'])} " + ln.split(" ", 1)[1])
         return ls
 
     # ---------------------------------------------------------------- judging
@@ -462,8 +525,29 @@ class CHECK(Check):
         for k, t in o["types"].items():
             if t not in ("exc", want_type):
                 probs.append(Problem("correspondence", f"{k}: result type {t}, documented {want_type}", "C02.extract_result"))
+        for k, t in o.get("dtypes", {}).items():
+            if t not in ("exc", want_type):
+                probs.append(Problem("property", f"{k}: result type {t}, documented {want_type}", "C02.extract_result"))
+        by_ns_frame = any(v == "ns" for nm in names for _, v in o["metrics"][nm]["by_group"])
+        raise_must_raise = case["kind"] == "frame" and by_ns_frame and self.ns_determined(o, names, ncf)
         for j, nm in enumerate(names):
             m = o["metrics"][nm]
+            # ---------------- documented defaults: a call that leaves `errors=` / `method=` out IS the call with the documented
+            # default (group_min / group_max: errors='raise'; difference / ratio: method='between_groups', errors='coerce')
+            for k in DEF_KEYS:
+                a, b = m.get("dflt", {}).get(k), m["agg"].get(documented_default(k))
+                if a is None or b is None:
+                    continue
+                if (a[0] == "exc") != (b[0] == "exc") or (a[0] != "exc" and a != b):
+                    probs.append(Problem("property", f"{nm}.{k}: the call without the argument(s) gives {a}, the call with the "
+                                         f"documented default ({documented_default(k)}) gives {b}", "C02.default_args"))
+            # ---------------- errors='raise': a non-scalar by_group cell that has to be compared must raise, not be skipped
+            if raise_must_raise:
+                for key in RAISE_KEYS:
+                    got = m["agg"][key]
+                    if not (got and got[0] == "exc"):
+                        probs.append(Problem("property", f"{nm}.{key} returned {got} although by_group holds non-scalar cells and "
+                                             "errors='raise' (documented: invalid parsing raises)", "C02.raise_raises_on_nonscalar"))
             col_ns = any(v == "ns" for _, v in m["by_group"] + m["overall"])
             by = [(tuple(k), x_of(v)) for k, v in m["by_group"]]
             ov = {tuple(k): x_of(v) for k, v in m["overall"]}
@@ -609,6 +693,72 @@ class CHECK(Check):
                             probs.append(Problem("correspondence", f"{nm}.{key}: impl {got} vs model {r}", "C02.model"))
         if mo is not None and case["kind"] == "frame":
             probs += self.judge_frame(case, o, mo, names, ncf, frame_ns)
+        if mo is not None:
+            probs += self.judge_cache(case, o, mo, names, ncf, frame_ns, any(p.kind == "property" for p in probs))
+        return probs
+
+    def judge_cache(self, case, o, mo, names, ncf, frame_ns, prop_failed):
+        """driver op `aggc.eval` = the LIFTED cache / accessors / `_extract_result` (Generated/PopulateSrc.lean, FrameSrc.lean):
+        (i) its 12 explicit calls = the hand-written op `agg.eval` (theorem C02.src_cache_explicit_calls), (ii) the extract
+        mode = the documented result type = the implementation's, (iii) explicit and default calls vs the implementation"""
+        probs = []
+        base = len(names) + (1 if case["kind"] == "frame" else 0)
+        changed = populate_changed()
+        doc_mode = "whole" if not case["bare"] else ("column0" if ncf > 0 else "entry0")
+        type_of = {"entry0": "scalar", "column0": "Series", "whole": "Series" if ncf == 0 else "DataFrame"}
+
+        def tie(msg, rel):
+            # model-vs-model / model-vs-documentation: a bug of this machinery on the pinned text, a broken tie after an edit
+            return Problem("correspondence", msg, rel) if changed else Problem("harness", msg)
+        for j, nm in enumerate(names):
+            if base + j >= len(mo):
+                return probs + [Problem("harness", "driver output: aggc.eval line missing")]
+            toks = mo[base + j].split(" ")
+            if len(toks) != 24:
+                probs.append(Problem("harness", f"driver output {mo[base + j][:200]!r}"))
+                continue
+            hand = mo[j].split(" ")
+            m = o["metrics"][nm]
+            for i, (key, tk) in enumerate(zip(AGG_KEYS + DEF_KEYS, toks)):
+                explicit = i < 12
+                rule_key = key if explicit else documented_default(key)
+                got = m["agg"][key] if explicit else m.get("dflt", {}).get(key)
+                typ = (o["types"] if explicit else o.get("dtypes", {})).get(key)
+                if got is None:
+                    continue
+                if tk in ("keyerror", "invalid"):
+                    probs.append(tie(f"{nm}.{key}: lifted accessor model answers {tk}", "C02.src_populate_eq_model"))
+                    continue
+                mode, r = tk.split(":", 1)
+                if mode != doc_mode:
+                    probs.append(tie(f"{nm}.{key}: lifted _extract_result mode {mode}, documented {doc_mode}", "C02.src_extract_documented"))
+                if typ not in (None, "exc") and typ != type_of[mode]:
+                    probs.append(Problem("correspondence", f"{key}: impl result type {typ}, lifted _extract_result mode {mode}",
+                                         "C02.extract_result"))
+                if explicit and len(hand) == 12 and r != hand[i]:
+                    probs.append(tie(f"{nm}.{key}: lifted cache {r} vs hand-written model {hand[i]}", "C02.src_populate_eq_model"))
+                if not explicit and len(hand) == 12 and r != hand[AGG_KEYS.index(rule_key)]:
+                    probs.append(tie(f"{nm}.{key}: lifted default call {r} vs hand-written model of {rule_key} "
+                                     f"{hand[AGG_KEYS.index(rule_key)]}", "C02.src_cache_default_calls"))
+                # (iii) the implementation
+                if frame_ns and rule_key not in NS_COMPARED:
+                    continue          # object-dtype reductions of pandas (see judge)
+                impl_exc = bool(got) and got[0] == "exc"
+                if r == "err":
+                    if not impl_exc and not prop_failed:
+                        probs.append(Problem("correspondence", f"{nm}.{key}: lifted cache model raises, impl returned {got}", "C02.cache_model"))
+                    continue
+                if impl_exc:
+                    if not prop_failed:
+                        probs.append(Problem("correspondence", f"{nm}.{key}: impl raised {got[1]}, lifted cache model returned {r}", "C02.cache_model"))
+                    continue
+                if prop_failed:
+                    continue
+                kt, ct = r.split("|")
+                md = dict(zip([tuple(k) for k in mc.parse_keys(kt)], mc.parse_cells(ct)))
+                gd = {tuple(k): v for k, v in got}
+                if list(gd.keys()) != list(md.keys()) or any(not mc.same(gd[c], md[c], TOL) for c in gd):
+                    probs.append(Problem("correspondence", f"{nm}.{key}: impl {got} vs lifted cache model {r}", "C02.cache_model"))
         return probs
 
     def judge_frame(self, case, o, mo, names, ncf, frame_ns):
